@@ -38,14 +38,55 @@ def rawtree(f):
     return ("?", repr(f))
 
 
+# Instance attributes a Fiber has on the pinned tree.  Anything else found on a live fiber (a memo, a cache, a cursor
+# added by a change to the library) is *hidden state*: it can steer later operations, so it has to be part of an
+# explicit-state key - otherwise two states that differ only in such an attribute are merged and the futures of the one
+# reached later (typically through a rejected or read-only operation) are never explored.  Over-fine keys only cost
+# time; on the unchanged tree the component is constant.
+_FIBER_ATTRS = frozenset(['_active_range', '_is_lazy', '_max_coord', '_ordered', '_owner', '_rank_attrs', '_saved_count',
+                          '_saved_dist', '_saved_pos', '_unique', 'coords', 'iter', 'payloads'])
+
+
+def _summ(v, depth=0):
+    if isinstance(v, (int, float, str, bool, type(None))):
+        return v
+    if isinstance(v, Payload):
+        return ("P", unbox(v))
+    if isinstance(v, (list, tuple)):
+        return tuple(_summ(x, depth + 1) for x in v[:8]) if depth < 3 else len(v)
+    if isinstance(v, dict):
+        return tuple(sorted((repr(k), repr(_summ(x, depth + 1))) for k, x in list(v.items())[:8])) if depth < 3 else len(v)
+    return type(v).__name__
+
+
+def hidden(f):
+    """(deprecated max-coordinate cache, every instance attribute the pinned Fiber class does not have)"""
+    d = vars(f)
+    return (d.get("_max_coord"),) + tuple(sorted((k, repr(_summ(v))) for k, v in d.items() if k not in _FIBER_ATTRS))
+
+
+def hidden_globals():
+    """Class-level data attributes that are not there on the pinned tree (class-wide memos), summarised."""
+    from fibertree.core.rank import Rank
+    from fibertree.core.rank_attrs import RankAttrs
+    out = []
+    for cls in (Fiber, Payload, Tensor, Rank, RankAttrs):
+        for k, v in vars(cls).items():
+            if k.startswith("__") or callable(v) or isinstance(v, (classmethod, staticmethod, property)):
+                continue
+            if isinstance(v, (list, dict, set)):
+                out.append((cls.__name__, k, repr(_summ(v if not isinstance(v, set) else sorted(v, key=repr)))))
+    return tuple(sorted(out))
+
+
 def rawfull(f):
-    """rawtree plus per-fiber saved position / active range (state keys)."""
+    """rawtree plus per-fiber saved position / active range / hidden state (state keys)."""
     if isinstance(f, Fiber):
         ps = tuple(rawfull(p) if isinstance(p, Fiber) else
                    (p.value if isinstance(p, Payload) and not isinstance(p.value, (Payload, Fiber))
                     else ("BAD", repr(p)))
                    for p in f.payloads)
-        return (tuple(f.coords), ps, f._saved_pos, f._active_range)
+        return (tuple(f.coords), ps, f._saved_pos, f._active_range, hidden(f))
     return rawtree(f)
 
 
